@@ -135,7 +135,12 @@ def _worker_obs(chunk):
                 continue  # loader refuses
             out["outcomes"][f"{base['status']}:{base['error']}"] = out["outcomes"].get(f"{base['status']}:{base['error']}", 0) + 1
             for detail in details:
-                records, files, real, _, _ = traces.traced_single(prog, dk, fresh() if fresh else ctx, detail=detail, mode="file", scratch=scratch)
+                try:
+                    records, files, real, _, _ = traces.traced_single(prog, dk, fresh() if fresh else ctx, detail=detail, mode="file", scratch=scratch)
+                except traces.TraceUnreadable as exc:
+                    out["n"] += 1
+                    out["viol"].append(("trace-not-parsable", f"{list(prog)} detail={detail}: {exc}", {"kind": "obs", "prog": list(prog), "ctx": {}, "detail": detail}))
+                    continue
                 tr = observe(real)
                 tr["files"] = base["files"]  # traced_single does not read sink files; the processor log covers sink calls
                 out["n"] += 1
@@ -271,6 +276,46 @@ FRESH_PAIRS = [
 ]
 
 
+def inplace_histories() -> Tuple[int, List[Violation]]:
+    """Beyond the small scope: the same configuration on the same payload CONTENT — once a collection object of 128 ... 300 elements that
+    an earlier run has already seen with other content (the caller changed it in place), once a fresh object: identical traces."""
+    import os
+
+    from semantiva.examples.test_utils import FloatDataCollection, FloatDataType
+    from semantiva.pipeline import Pipeline
+    from semantiva.trace.drivers.jsonl import JsonlTraceDriver
+
+    harness.quiet()
+    scratch = harness.enter_scratch()
+    cfg = harness.load_config(gen.yaml_config(("slice_mul3", "slice_probe", "sum")))
+    viols: List[Violation] = []
+    n = 0
+
+    def run(data, detail):
+        from mc import cli as _cli
+
+        harness.clear_dir(scratch)
+        tp = os.path.join(scratch, "t.ser.jsonl")
+        pipe = Pipeline(cfg.nodes, trace=JsonlTraceDriver(tp, detail=detail))
+        real = harness.run_pipeline(pipe, data, {}, None)
+        recs, _ = _cli.collect_trace(tp)
+        return normalise(recs), observe(real)
+
+    for size in (127, 128, 300):
+        for detail in ("hash", "all"):
+            vals = [float(i % 13) + i * 0.25 for i in range(size)]
+            x = FloatDataCollection.from_list([FloatDataType(v) for v in vals])
+            run(x, detail)
+            x.data[1] = FloatDataType(-3.5)
+            t_old_obj, o_old = run(x, detail)
+            t_fresh, o_fresh = run(FloatDataCollection.from_list([FloatDataType(v) for v in [vals[0], -3.5] + vals[2:]]), detail)
+            n += 3
+            if t_old_obj != t_fresh or o_old != o_fresh:
+                viols.append(Violation("trace-depends-on-earlier-object-state", f"{size}-element collection, detail={detail}: {first_diff(t_fresh, t_old_obj)[:300]}",
+                                       {"kind": "inplace"}))
+    return n, viols
+
+
 def launch_histories(tier: str) -> Tuple[int, List[Violation]]:
     """A run-space launch under an explicit launch id (or an idempotency key), performed, then another launch, then the first
     again — all in this process: the traces of the repeated launch are identical modulo the documented volatile fields."""
@@ -335,6 +380,9 @@ def check(tier: str, seed: int) -> Result:
     nl, vl = launch_histories(tier)
     viols.extend(vl)
     nh += nl
+    ni, vi = inplace_histories()
+    viols.extend(vi)
+    nh += ni
     cov = {
         "evaluations": n + nh + nf, "distinct_nontrivial": len(nontrivial) + nh + len(fjobs), "fresh_process_runs": nf,
         "rule": "observation: all programs of length 1-2 over a 20-symbol alphabet (+ length 3: reduced; thorough: full) x {empty, full} "
@@ -350,6 +398,8 @@ def check(tier: str, seed: int) -> Result:
 
 
 def replay(case) -> List[Violation]:
+    if case["kind"] == "inplace":
+        return inplace_histories()[1][:1]
     if case["kind"] == "launch":
         return launch_histories(case.get("tier", "quick"))[1][:1]
     if case["kind"] == "fresh":
